@@ -176,7 +176,7 @@ func VerifH_C13_WorkerAlwaysReports() {
 
 // Concurrency bounds hold at every point the coordinator blocks in its select.
 //
-//verif:opts nodeadlock preempt=0 preempt_thorough=1 threads=10 maxwall=1500 cover=observed
+//verif:opts nodeadlock preempt=0 threads=10 maxwall=1500 cover=observed
 func VerifH_C13_ConcurrencyBounds() {
 	sc, _, cancel, ctx, _, head, limit := verifStart(false)
 	defer cancel()
